@@ -123,11 +123,12 @@ func sortOf(t types.Type) Sort {
 		}
 		return SInt
 	case *types.Map:
-		nm := shortTypeName(t)
+		// a named map type and its underlying type denote the same objects (values convert implicitly): one sort, one tag
+		nm := shortTypeName(u)
 		nm = strings.NewReplacer(".", "_", "/", "_").Replace(nm)
 		a := aliasSort("M." + nm + ".")
 		if _, ok := aliasTags[a]; !ok {
-			aliasTags[a] = tagOf(t)
+			aliasTags[a] = tagOf(u)
 		}
 		return a
 	case *types.Chan, *types.Signature:
@@ -279,6 +280,11 @@ var (
 )
 
 func tagOf(t types.Type) *Term {
+	if t != nil {
+		if m, ok := t.Underlying().(*types.Map); ok {
+			t = m
+		}
+	}
 	k := typeKey(t)
 	if id, ok := typeTags[k]; ok {
 		return IntLit(int64(id))
